@@ -6,6 +6,7 @@ from typing import TYPE_CHECKING, Any
 from .decorator_parse import DECORATORS
 from .header import Header
 from .exception import (
+    JMCBuildError,
     JMCDecodeJSONError,
     JMCFileNotFoundError,
     JMCSyntaxException,
@@ -165,6 +166,16 @@ class Lexer:
         self.if_else_box = []
         self.config = config
         ISOLATED_ENVIRONMENT.reset()
+        for cert_key, name in (
+            ("LOAD", DataPack.load_name),
+            ("TICK", DataPack.tick_name),
+            ("PRIVATE", DataPack.private_name),
+        ):
+            # The file would go to the overridden namespace while it is called as <namespace>:<name>
+            if name.split("/")[0] in Header().namespace_overrides:
+                raise JMCBuildError(
+                    f"{cert_key}={name} in jmc.txt starts with the overridden namespace '{name.split('/')[0]}'.\nRename it in jmc.txt or remove the '#override'/'#link' of that namespace."
+                )
         self.datapack = DataPack(config.namespace, float(config.pack_format), self)
         self.datapack.functions[self.datapack.load_name] = Function()
         self.parse_file(Path(self.config.target), _test_file, is_load=True)
